@@ -240,7 +240,121 @@ func followerBodyBreak(nAppends int, syncData bool, breakStream bool) func(s *vs
 				s.Fail("old-term-append-stored", fmt.Sprintf("an append of term 1 was stored after the node was fenced for term 2 (log end %d -> %d)", lo, lo2))
 			}
 		}
+		// ... nor may a re-sent entry of the old term (an offset the node already holds) be acknowledged
+		if lo >= 0 {
+			if st3, err := net.GetReplicateStream(context.Background(), "n2", "ns", 1, 1); err == nil {
+				var late []int64
+				vsched.Go(func() {
+					for {
+						a, err := st3.Recv()
+						if err != nil {
+							return
+						}
+						late = append(late, a.Offset)
+					}
+				})
+				_ = st3.Send(&proto.Append{Term: 1, Entry: &proto.LogEntry{Term: 1, Offset: lo, Value: entryValue(int(lo)), Timestamp: uint64(1000 + lo)}, CommitOffset: -1})
+				s.Settle()
+				if len(late) > 0 {
+					s.Fail("old-term-ack-after-fence", fmt.Sprintf("node fenced for term 2 acknowledged offsets %v on behalf of term 1", late))
+				}
+			}
+		}
 		s.Data = fmt.Sprintf("head=%d acks=%v", h.Offset, acks)
+		_ = fc.Close()
+	}
+}
+
+// followerTruncateRedelivered: the follower is fenced for term 2 and truncated by the new leader,
+// which then replicates entries; the Truncate request is delivered a second time (a retry whose
+// first answer was lost) at any moment. Whatever the follower answers, every offset it has
+// acknowledged to the term-2 leader must still be in its log with the entry of that leader.
+func followerTruncateRedelivered(syncData bool) func(s *vsched.Sched) {
+	return func(s *vsched.Sched) {
+		s.Explore(false)
+		env := oxc.NewEnv(s)
+		net := oxc.NewNet()
+		kvf := oxc.NewObsFactory(env.Dir)
+		fc, err := server.NewFollowerController(server.Config{NotificationsRetentionTime: time.Hour}, "ns", 1, env.WalFactory("n2", 64*1024, syncData), kvf)
+		if err != nil {
+			s.Fail("harness-setup", err.Error())
+			return
+		}
+		net.Peers["n2"] = fc
+		fail := func(err error) bool {
+			if err != nil {
+				s.Fail("harness-setup", err.Error())
+				return true
+			}
+			return false
+		}
+		_, err = fc.NewTerm(&proto.NewTermRequest{Namespace: "ns", Shard: 1, Term: 1, Options: &proto.NewTermOptions{EnableNotifications: true}})
+		if fail(err) {
+			return
+		}
+		st1, err := net.GetReplicateStream(context.Background(), "n2", "ns", 1, 1)
+		if fail(err) {
+			return
+		}
+		for i := 0; i < 3; i++ {
+			_ = st1.Send(&proto.Append{Term: 1, Entry: &proto.LogEntry{Term: 1, Offset: int64(i), Value: entryValue(i), Timestamp: uint64(1000 + i)}, CommitOffset: int64(i - 1)})
+		}
+		s.Settle()
+		_, err = fc.NewTerm(&proto.NewTermRequest{Namespace: "ns", Shard: 1, Term: 2, Options: &proto.NewTermOptions{EnableNotifications: true}})
+		if fail(err) {
+			return
+		}
+		// the term-2 leader holds entries 0..1 of term 1 only: truncate to 1
+		tr := &proto.TruncateRequest{Namespace: "ns", Shard: 1, Term: 2, HeadEntryId: &proto.EntryId{Term: 1, Offset: 1}}
+		_, err = fc.Truncate(tr)
+		if fail(err) {
+			return
+		}
+		st2, err := net.GetReplicateStream(context.Background(), "n2", "ns", 1, 2)
+		if fail(err) {
+			return
+		}
+		s.Settle()
+		s.Explore(true)
+		var acks []int64
+		vsched.Go(func() {
+			for {
+				a, err := st2.Recv()
+				if err != nil {
+					return
+				}
+				acks = append(acks, a.Offset)
+			}
+		})
+		vsched.Go(func() {
+			for i := 2; i < 4; i++ {
+				if err := st2.Send(&proto.Append{Term: 2, Entry: &proto.LogEntry{Term: 2, Offset: int64(i), Value: entryValue(10 + i), Timestamp: uint64(2000 + i)}, CommitOffset: int64(i - 1)}); err != nil {
+					return
+				}
+			}
+		})
+		var dupErr error
+		vsched.Go(func() { _, dupErr = fc.Truncate(tr.CloneVT()) })
+		s.Settle()
+		s.Explore(false)
+		w := server.VerifFollowerWal(fc)
+		_, lo := lastEntry(w)
+		for _, a := range acks {
+			if a > lo {
+				s.Fail("acked-entry-truncated", fmt.Sprintf("follower acknowledged offset %d to the term-2 leader, then a re-delivered Truncate(term 2, head 1) (answer: %v) cut its log back to %d", a, dupErr, lo))
+				break
+			}
+			rd, err := w.NewReader(a - 1)
+			if err == nil {
+				if rd.HasNext() {
+					if e, err := rd.ReadNext(); err == nil && (e.Offset != a || e.Term != 2) {
+						s.Fail("acked-entry-replaced", fmt.Sprintf("offset %d acknowledged to the term-2 leader holds (term %d, offset %d)", a, e.Term, e.Offset))
+					}
+				}
+				_ = rd.Close()
+			}
+		}
+		s.Data = fmt.Sprintf("acks=%v last=%d dup=%v", acks, lo, dupErr != nil)
 		_ = fc.Close()
 	}
 }
@@ -262,6 +376,7 @@ func scenarios(tier string) []sched.Scenario {
 		{Name: "follower-2appends-sync", Cfg: cfg, MaxDev: d, Body: followerBody(2, true)},
 		{Name: "follower-2appends-nosync", Cfg: cfg, MaxDev: d, Body: followerBody(2, false)},
 		{Name: "follower-2appends-stream-break", Cfg: cfg, MaxDev: d, Body: followerBodyBreak(2, true, true)},
+		{Name: "follower-truncate-redelivered", Cfg: cfg, MaxDev: d, Body: followerTruncateRedelivered(true)},
 		{Name: "leader-1writer-sync", Cfg: cfg, MaxDev: d, Body: leaderBody(1, true, 1)},
 		{Name: "leader-2writers-sync", Cfg: cfg, MaxDev: 2, Body: leaderBody(2, true, 0)},
 	}
@@ -283,7 +398,7 @@ func main() {
 			}
 			return 100 * time.Second
 		},
-		Rule: "every schedule with at most max_dev non-default scheduling choices of NewTerm(T+1) racing with in-flight client writes (leader) or in-flight appends and WAL syncs (follower) on the real controllers; non-trivial = deviates at least once from the default schedule",
+		Rule:   "every schedule with at most max_dev non-default scheduling choices of NewTerm(T+1) racing with in-flight client writes (leader) or in-flight appends and WAL syncs (follower) on the real controllers; non-trivial = deviates at least once from the default schedule",
 		Assume: []string{"sequentially consistent memory", "peer side of the streams is scripted", "deviation-bounded schedules, not all interleavings"}}
 	os.Exit(sched.Main(su, *replay))
 }
